@@ -20,7 +20,9 @@ RULE = ("seeded random put worlds (as C01) plus forced cross-volume worlds (home
         "delete, of files, links and directory trees); for each, every state before each mutating "
         "call and the final state is compared with the model's state sequence and checked against the Lean predicate "
         "C05.Holds; a keyboard interrupt delivered right after each mutating call in turn (the interpreter unwinds through the "
-        "program's handlers) must leave a state satisfying the same predicate; thorough: real kills at every call index of a sample")
+        "program's handlers) must leave a state satisfying the same predicate; 2-3 real trash-put processes interleaved call by call (one is suspended "
+        "between its info file and its payload while another runs), oracle C01 on the final state; thorough: real kills at every "
+        "call index of a sample")
 
 
 def kill_task(task):
@@ -128,6 +130,10 @@ def run(tier, seed):
             ck.violation("interrupted: " + b["verdict"], {"oracle": "C05", "interrupt": True},
                          {"world": r.get("world"), "interrupt_after": b["k"], "call": b["call"], "verdict": b["verdict"]})
     ck.extra["interrupt_points"] = ni
+    # a trash-put that is suspended (not killed) between its info file and its payload while another one runs: the same
+    # invariant - a payload under files/ has its info file - judged on the final state of interleaved runs
+    from . import parworlds
+    parworlds.add_concurrent(ck, tier, seed + 505, oracles=("C01",), n_quick=60, n_thorough=1500)
     if tier == "quick":
         from ..putfamily import search_failing_input
         search_failing_input(ck, "C05", seed, CFG, n, "Model.Put")
@@ -146,4 +152,8 @@ def run(tier, seed):
 
 
 def replay(path):
+    from . import parworlds
+    rc = parworlds.replay_concurrent("C05", path, oracles=("C01",))
+    if rc is not None:
+        return rc
     return replay_family("C05", path, CFG)
